@@ -497,9 +497,20 @@ def _inplace(case):
     return True if case["inplace"] is None else case["inplace"]
 
 
+def _own_md(md):
+    # the entries 'weighted' and 'type' are written by the constructor itself: a result that was
+    # built afresh has them even when the argument's record had been replaced wholesale before
+    # (weightedness itself is compared through is_weighted())
+    return {k: v for k, v in md.items() if k not in ("weighted", "type")} \
+        if isinstance(md, dict) else md
+
+
 def _context_kept(what, before, after):
     for k in ("weighted", "nodes", "hypergraph_metadata"):
-        require(before[k] == after[k],
+        a, b = before[k], after[k]
+        if k == "hypergraph_metadata":
+            a, b = _own_md(a), _own_md(b)
+        require(a == b,
                 lambda: "%s: %s changed: before %s, after %s"
                 % (what, k, _short(before[k]), _short(after[k])), key="context-" + k)
 
